@@ -19,6 +19,7 @@ import (
 	"os"
 	"path/filepath"
 	"strings"
+	"sync"
 	"testing"
 	"time"
 
@@ -46,11 +47,22 @@ import (
 
 // vc02Errs records what the error collectors receive.
 type vc02Errs struct {
+	mu   sync.Mutex
 	errs []string
 }
 
 func (e *vc02Errs) Collect(_ context.Context, err error) {
+	e.mu.Lock()
+	defer e.mu.Unlock()
+
 	e.errs = append(e.errs, err.Error())
+}
+
+func (e *vc02Errs) count() int {
+	e.mu.Lock()
+	defer e.mu.Unlock()
+
+	return len(e.errs)
 }
 
 func vc02DNSMode(m vc02ref.Mode) dnsmsg.BlockingMode {
@@ -245,27 +257,112 @@ func vc02SafeBrowsing(f vc02ref.Flags) *filter.ConfigSafeBrowsing {
 	}
 }
 
-// vc02Upstream is the scripted upstream.
-type vc02Upstream struct {
-	script vc02ref.UpAnswer
-	asked  []dns.Question
-	sent   []*dns.Msg
+// Requester kinds.
+const (
+	vc02Anon = iota
+	vc02Profile
+	vc02ProfileOff
+	vc02DeviceOff
+)
+
+var vc02KindNames = [...]string{"anonymous", "profile", "profile-filtering-off", "device-filtering-off"}
+
+// vc02Who is one requester of a case.  It is never modified after creation, so
+// that several requests may be in flight at once.
+type vc02Who struct {
+	name string
+	kind int
+	prof *agd.Profile
+	dev  *agd.Device
+
+	// eff, mode and ttl are what the statement prescribes for this requester.
+	eff  *vc02ref.Config
+	mode vc02ref.Mode
+	ttl  uint32
 }
 
-func (u *vc02Upstream) ServeDNS(ctx context.Context, rw dnsserver.ResponseWriter, req *dns.Msg) (err error) {
-	u.asked = append(u.asked, req.Question[0])
-	resp := u.script.Build(req)
-	u.sent = append(u.sent, resp.Copy())
+// vc02Exch is the state of one request; the fakes find it in the context, so
+// concurrent requests do not share any of it.
+type vc02Exch struct {
+	who    *vc02Who
+	host   string
+	qt     uint16
+	script vc02ref.UpAnswer
+	gate   *vc02Gate
+
+	req     *dns.Msg
+	sentReq *dns.Msg
+	rw      *dnsserver.NonWriterResponseWriter
+	err     error
+
+	asked []dns.Question
+	sent  []*dns.Msg
+	seen  vc02Seen
+}
+
+type vc02ExchKey struct{}
+
+func vc02ExchOf(ctx context.Context) *vc02Exch {
+	e, _ := ctx.Value(vc02ExchKey{}).(*vc02Exch)
+	if e == nil {
+		panic("harness: request state lost from the context")
+	}
+
+	return e
+}
+
+// vc02Gate holds every request of a concurrent round inside the upstream until
+// all of them have arrived, so that all are in flight at the same time.
+type vc02Gate struct {
+	mu      sync.Mutex
+	need    int
+	arrived int
+	open    chan struct{}
+	late    bool
+}
+
+func vc02NewGate(n int) *vc02Gate { return &vc02Gate{need: n, open: make(chan struct{})} }
+
+func (g *vc02Gate) wait() {
+	g.mu.Lock()
+	g.arrived++
+	if g.arrived == g.need {
+		close(g.open)
+	}
+	g.mu.Unlock()
+
+	select {
+	case <-g.open:
+	case <-time.After(10 * time.Second):
+		// Not a verdict: the round simply was not concurrent.
+		g.mu.Lock()
+		g.late = true
+		g.mu.Unlock()
+	}
+}
+
+// vc02Upstream is the scripted upstream.
+type vc02Upstream struct{}
+
+func (vc02Upstream) ServeDNS(ctx context.Context, rw dnsserver.ResponseWriter, req *dns.Msg) (err error) {
+	e := vc02ExchOf(ctx)
+	e.asked = append(e.asked, req.Question[0])
+	resp := e.script.Build(req)
+	e.sent = append(e.sent, resp.Copy())
+	if e.gate != nil {
+		e.gate.wait()
+	}
 
 	return rw.WriteMsg(ctx, req, resp)
 }
 
-// vc02Seen is what the recording fakes saw.
+// vc02Seen is what the recording fakes saw for one request.
 type vc02Seen struct {
 	statN    int
 	statID   string
 	statText string
 	logged   []*querylog.Entry
+	billed   int
 }
 
 // vc02Constructor builds a message constructor.
@@ -325,7 +422,7 @@ func vc02MixCase(t *rapid.T, s string) string {
 type vc02Case struct {
 	req     *dns.Msg
 	written *dns.Msg
-	up      *vc02Upstream
+	up      *vc02Exch
 	seen    *vc02Seen
 	mode    vc02ref.Mode
 	ttl     uint32
@@ -488,13 +585,313 @@ func (c *vc02Case) explainsResp(o vc02ref.Outcome) error {
 	return fmt.Errorf("unexpected response outcome kind %s", o.Kind)
 }
 
+// vc02Env is what is shared by all requests of one case.
+type vc02Env struct {
+	w      *vc02ref.World
+	h      dnsserver.Handler
+	ec     *vc02Errs
+	whos   []*vc02Who
+	srv    vc02ref.Mode
+	srvTTL uint32
+}
+
+// vc02NearHosts returns the hosts that differ from host by one label step:
+// parent, children and siblings in the pool.
+func vc02NearHosts(host string) (near []string) {
+	parent := ""
+	if i := strings.IndexByte(host, '.'); i >= 0 {
+		parent = host[i+1:]
+	}
+
+	for _, h := range vc02ref.Hosts {
+		hp := ""
+		if i := strings.IndexByte(h, '.'); i >= 0 {
+			hp = h[i+1:]
+		}
+
+		if h != host && (h == parent || hp == host || hp == parent) {
+			near = append(near, h)
+		}
+	}
+
+	if len(near) == 0 {
+		near = vc02ref.Hosts
+	}
+
+	return near
+}
+
+// vc02DrawExch draws the next request.  Mostly it is a near miss of the
+// previous one: the same request with exactly one component changed.
+func vc02DrawExch(t *rapid.T, env *vc02Env, focus string, prev *vc02Exch) (e *vc02Exch, change string) {
+	e = &vc02Exch{}
+	change = "fresh"
+	if prev != nil && rapid.IntRange(0, 9).Draw(t, "nearMiss") < 7 {
+		e.who, e.host, e.qt = prev.who, prev.host, prev.qt
+		change = rapid.SampledFrom([]string{"requester", "requester", "requester", "qtype", "host", "nothing"}).Draw(t, "change")
+		switch change {
+		case "requester":
+			others := []*vc02Who{}
+			for _, w := range env.whos {
+				if w != prev.who {
+					others = append(others, w)
+				}
+			}
+
+			e.who = others[rapid.IntRange(0, len(others)-1).Draw(t, "otherWho")]
+		case "qtype":
+			e.qt = rapid.SampledFrom(vc02ref.QTypes).Draw(t, "qt")
+		case "host":
+			e.host = rapid.SampledFrom(vc02NearHosts(prev.host)).Draw(t, "nearHost")
+		}
+	} else {
+		e.who = env.whos[rapid.IntRange(0, len(env.whos)-1).Draw(t, "who")]
+		e.host = focus
+		switch k := rapid.IntRange(0, 15).Draw(t, "hostKind"); {
+		case k == 15:
+			e.host = rapid.SampledFrom(vc02ref.EdgeHosts).Draw(t, "edgeHost")
+		case k >= 11:
+			e.host = rapid.SampledFrom(vc02ref.Hosts).Draw(t, "host")
+		}
+
+		e.qt = rapid.SampledFrom(vc02ref.QTypes).Draw(t, "qt")
+	}
+
+	e.script = vc02ref.DrawUpAnswer(t, e.qt)
+
+	req := &dns.Msg{}
+	req.Id = uint16(rapid.IntRange(0, 65535).Draw(t, "id"))
+	req.RecursionDesired = rapid.IntRange(0, 3).Draw(t, "rd") != 0
+	req.CheckingDisabled = rapid.IntRange(0, 3).Draw(t, "cd") == 0
+	req.Question = []dns.Question{{Name: vc02MixCase(t, e.host) + ".", Qtype: e.qt, Qclass: dns.ClassINET}}
+	if rapid.Bool().Draw(t, "edns") {
+		req.SetEdns0(uint16(rapid.SampledFrom([]int{512, 1232, 4096}).Draw(t, "udpSize")), rapid.IntRange(0, 3).Draw(t, "do") == 0)
+	}
+
+	e.req, e.sentReq = req, req.Copy()
+
+	return e, change
+}
+
+// vc02Serve runs one request through the stack.  It may be called from several
+// goroutines at once.
+func vc02Serve(env *vc02Env, e *vc02Exch, port int) {
+	raddr := &net.TCPAddr{IP: net.IP{192, 0, 2, 77}, Port: port}
+	laddr := &net.TCPAddr{IP: net.IP{127, 0, 0, 1}, Port: 853}
+	e.rw = dnsserver.NewNonWriterResponseWriter(laddr, raddr)
+	ctx := context.WithValue(context.Background(), vc02ExchKey{}, e)
+	ctx = dnsserver.ContextWithRequestInfo(ctx, &dnsserver.RequestInfo{StartTime: time.Now()})
+	e.err = env.h.ServeDNS(ctx, e.rw, e.req)
+}
+
+// vc02Judge checks the answer written for e and returns the histogram labels
+// and the non-triviality key.
+func vc02Judge(t *rapid.T, env *vc02Env, e *vc02Exch) (classes []string, nt string, desc map[string]any, verdict string) {
+	who, host, qt := e.who, e.host, e.qt
+	eff, mode, ttl := who.eff, who.mode, who.ttl
+	desc = map[string]any{
+		"config": eff.Describe(), "requester": who.name,
+		"mode": mode.String(), "ttl": ttl, "server_mode": env.srv.String(), "server_ttl": env.srvTTL,
+		"question": fmt.Sprintf("%s %s", e.sentReq.Question[0].Name, dns.TypeToString[qt]),
+	}
+
+	if e.err != nil {
+		t.Fatalf("case %v: ServeDNS: %v", desc, e.err)
+	}
+
+	written := e.rw.Msg()
+	if written == nil {
+		t.Fatalf("case %v: nothing written", desc)
+	}
+
+	if len(e.sent) > 0 {
+		desc["upstream"] = vc02ref.MsgString(e.sent[0])
+	}
+
+	c := &vc02Case{req: e.sentReq, written: written, up: e, seen: &e.seen, mode: mode, ttl: ttl}
+
+	// The written answer must be explained by an acceptable verdict.
+	reqOuts := eff.EvalRequest(host, qt)
+	var respOuts []vc02ref.Outcome
+	var why []string
+	var got, gotResp vc02ref.Outcome
+	explained := false
+	for _, o := range reqOuts {
+		if o.Kind == vc02ref.ONone {
+			if len(e.sent) != 1 {
+				why = append(why, fmt.Sprintf("no request verdict: upstream asked %d times", len(e.sent)))
+
+				continue
+			}
+
+			respOuts = eff.EvalResponse(e.sent[0])
+			for _, ro := range respOuts {
+				err := c.explainsResp(ro)
+				if err == nil {
+					got, gotResp, explained = o, ro, true
+
+					break
+				}
+
+				why = append(why, fmt.Sprintf("as no request verdict + response %s: %v", ro, err))
+			}
+		} else if err := c.explains(o); err == nil {
+			got, explained = o, true
+		} else {
+			why = append(why, fmt.Sprintf("as %s: %v", o, err))
+		}
+
+		if explained {
+			break
+		}
+	}
+
+	if !explained {
+		t.Fatalf("case %v\nwritten %s\nrule statistics (%q, %q)\nnot explained by any acceptable verdict %s:\n  %s",
+			desc, vc02ref.MsgString(written), e.seen.statID, e.seen.statText, vc02ref.OutcomesString(reqOuts), strings.Join(why, "\n  "))
+	}
+
+	// The query log, when written, carries the verdicts themselves; it is
+	// written exactly for requesters with a profile that has it switched on.
+	wantLog := who.prof != nil && who.prof.QueryLogEnabled
+	if wantLog != (len(e.seen.logged) == 1) {
+		t.Fatalf("case %v: %d query-log entries, want logged=%t", desc, len(e.seen.logged), wantLog)
+	}
+
+	if wantLog {
+		le := e.seen.logged[0]
+		if _, ok := vc02ref.Accept(vc02ObserveResult(le.RequestResult), reqOuts); !ok {
+			t.Fatalf("case %v: logged request verdict %s, acceptable %s", desc, vc02ObserveResult(le.RequestResult), vc02ref.OutcomesString(reqOuts))
+		}
+
+		if got.Kind == vc02ref.ONone {
+			if _, ok := vc02ref.Accept(vc02ObserveResult(le.ResponseResult), respOuts); !ok {
+				t.Fatalf("case %v: logged response verdict %s, acceptable %s", desc, vc02ObserveResult(le.ResponseResult), vc02ref.OutcomesString(respOuts))
+			}
+		}
+
+		if le.ProfileID != who.prof.ID || le.DomainFQDN != e.sentReq.Question[0].Name || le.RequestType != qt {
+			t.Fatalf("case %v: query-log entry of another request: profile %q name %q type %d", desc, le.ProfileID, le.DomainFQDN, le.RequestType)
+		}
+
+		if wantIP := who.prof.IPLogEnabled; wantIP != (le.RemoteIP != netip.Addr{}) {
+			t.Fatalf("case %v: query-log entry has client address %v, IP logging is %t", desc, le.RemoteIP, wantIP)
+		}
+	}
+
+	// Classes.
+	classes = []string{"verdict-" + got.Kind.String(), mode.Class(), "requester-" + vc02KindNames[who.kind]}
+	upNonEmpty := len(e.sent) == 1 && len(e.sent[0].Answer) > 0
+	blockedShape := func() {
+		switch mode.Kind {
+		case vc02ref.MNull:
+			if qt == dns.TypeA || qt == dns.TypeAAAA {
+				classes = append(classes, "blocked-null-ip-addr")
+			} else {
+				classes = append(classes, "blocked-null-ip-nodata")
+			}
+		case vc02ref.MCustom:
+			if (qt == dns.TypeA && len(mode.V4) > 0) || (qt == dns.TypeAAAA && len(mode.V6) > 0) {
+				classes = append(classes, "blocked-custom-ip-addr")
+			} else {
+				classes = append(classes, "blocked-custom-ip-nodata")
+			}
+		case vc02ref.MNXDomain:
+			classes = append(classes, "blocked-nxdomain")
+		case vc02ref.MRefused:
+			classes = append(classes, "blocked-refused")
+		}
+
+		if upNonEmpty {
+			classes = append(classes, "blocked-over-nonempty-upstream")
+		}
+	}
+
+	respWouldBlock := func() bool {
+		if len(e.sent) != 1 {
+			return false
+		}
+
+		for _, ro := range eff.EvalResponse(e.sent[0]) {
+			if ro.Kind == vc02ref.OBlocked {
+				return true
+			}
+		}
+
+		return false
+	}
+
+	replaced := false
+	switch got.Kind {
+	case vc02ref.OBlocked, vc02ref.OSafeBlock:
+		blockedShape()
+		replaced = upNonEmpty
+	case vc02ref.ONone:
+		classes = append(classes, "resp-verdict-"+gotResp.Kind.String())
+		if gotResp.Kind == vc02ref.OBlocked {
+			blockedShape()
+			classes = append(classes, "blocked-by-response")
+			replaced = true
+		}
+	case vc02ref.OAllowed:
+		if respWouldBlock() {
+			classes = append(classes, "req-allowed-resp-would-block")
+		}
+	case vc02ref.ORwCNAME:
+		classes = append(classes, "rewrite-cname")
+		if respWouldBlock() {
+			classes = append(classes, "cname-rewrite-resp-would-block")
+		}
+	case vc02ref.ORwIP:
+		classes = append(classes, "rewrite-ip")
+		replaced = upNonEmpty
+	case vc02ref.ORwRcode:
+		classes = append(classes, "rewrite-rcode")
+		replaced = upNonEmpty
+	}
+
+	if got.Kind != vc02ref.ONone && got.List != vc02ref.IDCustom && got.List != vc02ref.IDSvc && !strings.HasPrefix(got.List, "l") {
+		classes = append(classes, "safety-verdict")
+	}
+
+	switch who.kind {
+	case vc02Anon:
+		classes = append(classes, "anonymous-group-config")
+	case vc02Profile:
+		classes = append(classes, "profile-config")
+	case vc02ProfileOff:
+		classes = append(classes, "filtering-off-profile")
+	case vc02DeviceOff:
+		classes = append(classes, "filtering-off-device")
+	}
+
+	if host == "" || !strings.Contains(host, ".") {
+		classes = append(classes, "edge-host-root-or-tld")
+	}
+
+	// Would the verdict differ if every slot of the world were in effect?
+	if eff != nil {
+		if vc02ref.OutcomesString(env.w.All().EvalRequest(host, qt)) != vc02ref.OutcomesString(reqOuts) {
+			classes = append(classes, "flag-off-hides-slot")
+		}
+	}
+
+	slots := eff.Slots(host, qt)
+	if slots >= 2 || replaced {
+		nt = fmt.Sprintf("%v", desc)
+	}
+
+	return classes, nt, desc, got.String()
+}
+
 func TestVerifC02Shape(t *testing.T) {
 	st := vstat.New("C02", "mainmw.shape",
-		"rapid: world of lists in a real filterstorage.Default x profile/group switches x requester (anonymous | profile with profile/device filtering switches) x blocking mode and TTL (profile's vs server's) x question x scripted marker-carrying upstream answer, through the real ratelimitmw + mainmw; non-trivial = at least two slots match the question, or a blocked/rewritten answer replaced a non-empty upstream answer, distinct by (effective configuration, requester, mode, question, upstream answer)",
+		"rapid: world of lists in a real filterstorage.Default x switches of two profiles and the group x requester (anonymous | profile A | profile B | profile/device filtering off) x blocking mode and TTL (each profile's vs the server's) x question x scripted marker-carrying upstream answer, through one real ratelimitmw + mainmw stack per case: a sequence of 1-4 requests, each mostly a near miss of the previous one (only the requester / the qtype / one label changed, or nothing), then a round of 2-4 requests in flight at once; non-trivial = at least two slots match the question, or a blocked/rewritten answer replaced a non-empty upstream answer, distinct by (effective configuration, requester, mode, question, upstream answer)",
 		"blocked-null-ip-addr", "blocked-null-ip-nodata", "blocked-custom-ip-addr", "blocked-custom-ip-nodata", "blocked-nxdomain", "blocked-refused",
-		"blocked-by-response", "req-allowed-resp-would-block", "rewrite-cname", "rewrite-ip", "rewrite-rcode",
+		"blocked-by-response", "req-allowed-resp-would-block", "cname-rewrite-resp-would-block", "rewrite-cname", "rewrite-ip", "rewrite-rcode",
 		"filtering-off-profile", "filtering-off-device", "anonymous-group-config", "profile-config", "blocked-over-nonempty-upstream",
-		"flag-off-hides-slot", "safety-verdict", "later-question-on-same-stack")
+		"flag-off-hides-slot", "safety-verdict", "later-question-on-same-stack", "same-question-other-requester", "same-question-other-requester-blocked",
+		"identical-repeat", "near-miss-qtype", "near-miss-host", "concurrent-request", "concurrent-same-question-blocked", "edge-host-root-or-tld")
 	st.Finish(t)
 
 	base := t.TempDir()
@@ -520,57 +917,51 @@ func TestVerifC02Shape(t *testing.T) {
 		ec := &vc02Errs{}
 		strg := vc02Storage(t, dir, w, rapid.Bool().Draw(t, "resultCache"), ec)
 
-		profFlags := vc02ref.DrawFlags(t, "prof")
-		grpFlags := vc02ref.DrawFlags(t, "grp")
-
-		// Requester.
-		const (
-			reqAnon = iota
-			reqProfile
-			reqProfileOff
-			reqDeviceOff
-		)
-
-		// The requester changes from question to question on the same stack, so
-		// that nothing of one request (pooled contexts, constructors) can leak
-		// into the next.
-		requester := reqAnon
-
-		srvMode, profMode := vc02ref.DrawMode(t, "srvMode"), vc02ref.DrawMode(t, "profMode")
+		flagsA, flagsB, grpFlags := vc02ref.DrawFlags(t, "profA"), vc02ref.DrawFlags(t, "profB"), vc02ref.DrawFlags(t, "grp")
+		srvMode, modeA, modeB := vc02ref.DrawMode(t, "srvMode"), vc02ref.DrawMode(t, "modeA"), vc02ref.DrawMode(t, "modeB")
 		ttls := []int{0, 1, 10, 60, 300, 3600}
 		srvTTL := uint32(rapid.SampledFrom(ttls).Draw(t, "srvTTL"))
-		profTTL := uint32(rapid.SampledFrom(ttls).Draw(t, "profTTL"))
+		ttlA := uint32(rapid.SampledFrom(ttls).Draw(t, "ttlA"))
+		ttlB := uint32(rapid.SampledFrom(ttls).Draw(t, "ttlB"))
 		ede := rapid.Bool().Draw(t, "ede")
+		logA := rapid.IntRange(0, 3).Draw(t, "queryLogA") != 0
 
 		cloner := agdtest.NewCloner()
 		srvMsgs := vc02Constructor(t, cloner, srvMode, srvTTL, ede)
 
-		var custom *filter.ConfigCustom
-		if w.Custom != nil {
-			custom = &filter.ConfigCustom{ID: fmt.Sprintf("p%d", caseN), UpdateTime: time.Unix(int64(caseN), 0), Enabled: profFlags.CustomOn}
-			for _, r := range w.Custom.RuleTexts() {
-				custom.Rules = append(custom.Rules, filter.RuleText(r))
+		newProfile := func(id string, f vc02ref.Flags, m vc02ref.Mode, ttl uint32, on, qlog, iplog bool) *agd.Profile {
+			custom := &filter.ConfigCustom{ID: fmt.Sprintf("%s-%d", id, caseN), UpdateTime: time.Unix(int64(caseN), 0), Enabled: f.CustomOn}
+			if w.Custom != nil {
+				for _, r := range w.Custom.RuleTexts() {
+					custom.Rules = append(custom.Rules, filter.RuleText(r))
+				}
 			}
-		} else {
-			custom = &filter.ConfigCustom{ID: fmt.Sprintf("p%d", caseN), Enabled: profFlags.CustomOn}
+
+			return &agd.Profile{
+				FilterConfig: &filter.ConfigClient{
+					Custom:       custom,
+					Parental:     vc02Parental(f),
+					RuleList:     &filter.ConfigRuleList{IDs: vc02IDs(f.ListIDs), Enabled: f.RuleListsOn},
+					SafeBrowsing: vc02SafeBrowsing(f),
+				},
+				Access:              access.EmptyProfile{},
+				BlockingMode:        vc02DNSMode(m),
+				Ratelimiter:         agd.GlobalRatelimiter{},
+				ID:                  agd.ProfileID(id),
+				FilteredResponseTTL: time.Duration(ttl) * time.Second,
+				FilteringEnabled:    on,
+				QueryLogEnabled:     qlog,
+				IPLogEnabled:        iplog,
+			}
 		}
 
-		prof := &agd.Profile{
-			FilterConfig: &filter.ConfigClient{
-				Custom:       custom,
-				Parental:     vc02Parental(profFlags),
-				RuleList:     &filter.ConfigRuleList{IDs: vc02IDs(profFlags.ListIDs), Enabled: profFlags.RuleListsOn},
-				SafeBrowsing: vc02SafeBrowsing(profFlags),
-			},
-			Access:              access.EmptyProfile{},
-			BlockingMode:        vc02DNSMode(profMode),
-			Ratelimiter:         agd.GlobalRatelimiter{},
-			ID:                  "prof1234",
-			FilteredResponseTTL: time.Duration(profTTL) * time.Second,
-			FilteringEnabled:    true,
-			QueryLogEnabled:     rapid.IntRange(0, 3).Draw(t, "queryLog") != 0,
-		}
-		dev := &agd.Device{ID: "dev1234", FilteringEnabled: true}
+		// Profile A logs (mostly) with the client address, profile B is its
+		// opposite; the switched-off variants share A's settings.
+		profA := newProfile("profA", flagsA, modeA, ttlA, true, logA, true)
+		profB := newProfile("profB", flagsB, modeB, ttlB, true, !logA, false)
+		profAOff := newProfile("profAoff", flagsA, modeA, ttlA, false, logA, true)
+		devOn := &agd.Device{ID: "devon", FilteringEnabled: true}
+		devOff := &agd.Device{ID: "devoff", FilteringEnabled: false}
 		grp := &agd.FilteringGroup{
 			ID: "grp",
 			FilterConfig: &filter.ConfigGroup{
@@ -580,8 +971,15 @@ func TestVerifC02Shape(t *testing.T) {
 			},
 		}
 
-		seen := &vc02Seen{}
-		up := &vc02Upstream{}
+		env := &vc02Env{w: w, ec: ec, srv: srvMode, srvTTL: srvTTL}
+		env.whos = []*vc02Who{
+			{name: "anonymous", kind: vc02Anon, eff: w.Effective(grpFlags, false), mode: srvMode, ttl: srvTTL},
+			{name: "profile-A", kind: vc02Profile, prof: profA, dev: devOn, eff: w.Effective(flagsA, true), mode: modeA, ttl: ttlA},
+			{name: "profile-B", kind: vc02Profile, prof: profB, dev: devOn, eff: w.Effective(flagsB, true), mode: modeB, ttl: ttlB},
+			{name: "profile-A-filtering-off", kind: vc02ProfileOff, prof: profAOff, dev: devOn, mode: modeA, ttl: ttlA},
+			{name: "profile-A-device-filtering-off", kind: vc02DeviceOff, prof: profA, dev: devOff, mode: modeA, ttl: ttlA},
+		}
+
 		geo := agdtest.NewGeoIP()
 		geo.OnData = func(string, netip.Addr) (*geoip.Location, error) { return nil, nil }
 
@@ -590,20 +988,24 @@ func TestVerifC02Shape(t *testing.T) {
 			Logger:   slogutil.NewDiscardLogger(),
 			Messages: srvMsgs,
 			BillStat: &agdtest.BillStatRecorder{
-				OnRecord: func(context.Context, agd.DeviceID, geoip.Country, geoip.ASN, time.Time, agd.Protocol) {},
+				OnRecord: func(ctx context.Context, _ agd.DeviceID, _ geoip.Country, _ geoip.ASN, _ time.Time, _ agd.Protocol) {
+					vc02ExchOf(ctx).seen.billed++
+				},
 			},
 			ErrColl:       ec,
 			FilterStorage: strg,
 			GeoIP:         geo,
 			Metrics:       mainmw.EmptyMetrics{},
-			QueryLog: &agdtest.QueryLog{OnWrite: func(_ context.Context, e *querylog.Entry) error {
-				seen.logged = append(seen.logged, e)
+			QueryLog: &agdtest.QueryLog{OnWrite: func(ctx context.Context, e *querylog.Entry) error {
+				x := vc02ExchOf(ctx)
+				x.seen.logged = append(x.seen.logged, e)
 
 				return nil
 			}},
-			RuleStat: &agdtest.RuleStat{OnCollect: func(_ context.Context, id filter.ID, text filter.RuleText) {
-				seen.statN++
-				seen.statID, seen.statText = string(id), string(text)
+			RuleStat: &agdtest.RuleStat{OnCollect: func(ctx context.Context, id filter.ID, text filter.RuleText) {
+				x := vc02ExchOf(ctx)
+				x.seen.statN++
+				x.seen.statID, x.seen.statText = string(id), string(text)
 			}},
 		})
 
@@ -619,12 +1021,13 @@ func TestVerifC02Shape(t *testing.T) {
 				OnIsBlockedIP:   func(netip.Addr) bool { return false },
 			},
 			DeviceFinder: &agdtest.DeviceFinder{
-				OnFind: func(context.Context, *dns.Msg, netip.AddrPort, netip.AddrPort) agd.DeviceResult {
-					if requester == reqAnon {
+				OnFind: func(ctx context.Context, _ *dns.Msg, _, _ netip.AddrPort) agd.DeviceResult {
+					who := vc02ExchOf(ctx).who
+					if who.prof == nil {
 						return nil
 					}
 
-					return &agd.DeviceResultOK{Device: dev, Profile: prof}
+					return &agd.DeviceResultOK{Device: who.dev, Profile: who.prof}
 				},
 			},
 			ErrColl:    ec,
@@ -635,248 +1038,113 @@ func TestVerifC02Shape(t *testing.T) {
 			EDEEnabled: ede,
 		})
 
-		h := rlMw.Wrap(mainMw.Wrap(up))
+		env.h = rlMw.Wrap(mainMw.Wrap(vc02Upstream{}))
 
-		type vq struct {
-			host string
-			qt   uint16
-		}
-
-		asked := map[vq]bool{}
-		nQ := rapid.IntRange(1, 3).Draw(t, "nQuestions")
-		for qi := 0; qi < nQ; qi++ {
-			*seen = vc02Seen{}
-			up.asked, up.sent = nil, nil
-			nErrs := len(ec.errs)
-
-			requester = rapid.SampledFrom([]int{reqAnon, reqAnon, reqProfile, reqProfile, reqProfile, reqProfile, reqProfileOff, reqDeviceOff}).Draw(t, "requester")
-			prof.FilteringEnabled = requester != reqProfileOff
-			dev.FilteringEnabled = requester != reqDeviceOff
-
-			// The configuration, mode and TTL the statement prescribes for this
-			// requester.
-			var eff *vc02ref.Config
-			mode, ttl := profMode, profTTL
-			switch requester {
-			case reqAnon:
-				eff, mode, ttl = w.Effective(grpFlags, false), srvMode, srvTTL
-			case reqProfile:
-				eff = w.Effective(profFlags, true)
-			}
-
-			// Question.
-			host := focus
-			if rapid.IntRange(0, 3).Draw(t, "otherHost") == 0 {
-				host = rapid.SampledFrom(vc02ref.Hosts).Draw(t, "host")
-			}
-
-			qt := rapid.SampledFrom(vc02ref.QTypes).Draw(t, "qt")
-			if asked[vq{host, qt}] {
-				// The same question twice on one storage would be answered from the
-				// safety filters' result caches; that is C12's subject.
-				continue
-			}
-
-			asked[vq{host, qt}] = true
-			up.script = vc02ref.DrawUpAnswer(t, qt)
-
-			req := &dns.Msg{}
-			req.Id = uint16(rapid.IntRange(0, 65535).Draw(t, "id"))
-			req.RecursionDesired = true
-			req.Question = []dns.Question{{Name: vc02MixCase(t, host) + ".", Qtype: qt, Qclass: dns.ClassINET}}
-			if rapid.Bool().Draw(t, "edns") {
-				req.SetEdns0(1232, false)
-			}
-
-			sentReq := req.Copy()
-
-			raddr := &net.TCPAddr{IP: net.IP{192, 0, 2, 77}, Port: 4242}
-			laddr := &net.TCPAddr{IP: net.IP{127, 0, 0, 1}, Port: 853}
-			nrw := dnsserver.NewNonWriterResponseWriter(laddr, raddr)
-			ctx := dnsserver.ContextWithRequestInfo(context.Background(), &dnsserver.RequestInfo{StartTime: time.Now()})
-
-			desc := map[string]any{
-				"config": eff.Describe(), "requester": []string{"anonymous", "profile", "profile-filtering-off", "device-filtering-off"}[requester],
-				"mode": mode.String(), "ttl": ttl, "server_mode": srvMode.String(), "server_ttl": srvTTL, "profile_mode": profMode.String(), "profile_ttl": profTTL,
-				"question": fmt.Sprintf("%s %s", req.Question[0].Name, dns.TypeToString[qt]),
-			}
-
-			if err := h.ServeDNS(ctx, nrw, req); err != nil {
-				t.Fatalf("case %v: ServeDNS: %v", desc, err)
-			}
-
-			written := nrw.Msg()
-			if written == nil {
-				t.Fatalf("case %v: nothing written", desc)
-			}
-
-			if len(up.sent) > 0 {
-				desc["upstream"] = vc02ref.MsgString(up.sent[0])
-			}
-
-			c := &vc02Case{req: sentReq, written: written, up: up, seen: seen, mode: mode, ttl: ttl}
-
-			// Judge: the written answer must be explained by an acceptable verdict.
-			reqOuts := eff.EvalRequest(host, qt)
-			var respOuts []vc02ref.Outcome
-			var why []string
-			var got, gotResp vc02ref.Outcome
-			explained := false
-			for _, o := range reqOuts {
-				if o.Kind == vc02ref.ONone {
-					if len(up.sent) != 1 {
-						why = append(why, fmt.Sprintf("no request verdict: upstream asked %d times", len(up.sent)))
-
-						continue
-					}
-
-					respOuts = eff.EvalResponse(up.sent[0])
-					for _, ro := range respOuts {
-						err := c.explainsResp(ro)
-						if err == nil {
-							got, gotResp, explained = o, ro, true
-
-							break
-						}
-
-						why = append(why, fmt.Sprintf("as no request verdict + response %s: %v", ro, err))
-					}
-				} else if err := c.explains(o); err == nil {
-					got, explained = o, true
-				} else {
-					why = append(why, fmt.Sprintf("as %s: %v", o, err))
-				}
-
-				if explained {
-					break
-				}
-			}
-
-			if !explained {
-				t.Fatalf("case %v\nwritten %s\nrule statistics (%q, %q)\nnot explained by any acceptable verdict %s:\n  %s",
-					desc, vc02ref.MsgString(written), seen.statID, seen.statText, vc02ref.OutcomesString(reqOuts), strings.Join(why, "\n  "))
-			}
-
-			// The query log, when written, carries the verdicts themselves.
-			wantLog := requester != reqAnon && prof.QueryLogEnabled
-			if wantLog != (len(seen.logged) == 1) {
-				t.Fatalf("case %v: %d query-log entries, want logged=%t", desc, len(seen.logged), wantLog)
-			}
-
-			if wantLog {
-				e := seen.logged[0]
-				if _, ok := vc02ref.Accept(vc02ObserveResult(e.RequestResult), reqOuts); !ok {
-					t.Fatalf("case %v: logged request verdict %s, acceptable %s", desc, vc02ObserveResult(e.RequestResult), vc02ref.OutcomesString(reqOuts))
-				}
-
-				if got.Kind == vc02ref.ONone {
-					if _, ok := vc02ref.Accept(vc02ObserveResult(e.ResponseResult), respOuts); !ok {
-						t.Fatalf("case %v: logged response verdict %s, acceptable %s", desc, vc02ObserveResult(e.ResponseResult), vc02ref.OutcomesString(respOuts))
-					}
-				}
-			}
-
-			// Classes.
-			classes := []string{"verdict-" + got.Kind.String(), mode.Class()}
-			upNonEmpty := len(up.sent) == 1 && len(up.sent[0].Answer) > 0
-			blockedShape := func(prefix string) {
-				isAddr := qt == dns.TypeA || qt == dns.TypeAAAA
-				switch mode.Kind {
-				case vc02ref.MNull:
-					if isAddr {
-						classes = append(classes, prefix+"-null-ip-addr")
-					} else {
-						classes = append(classes, prefix+"-null-ip-nodata")
-					}
-				case vc02ref.MCustom:
-					if (qt == dns.TypeA && len(mode.V4) > 0) || (qt == dns.TypeAAAA && len(mode.V6) > 0) {
-						classes = append(classes, prefix+"-custom-ip-addr")
-					} else {
-						classes = append(classes, prefix+"-custom-ip-nodata")
-					}
-				case vc02ref.MNXDomain:
-					classes = append(classes, prefix+"-nxdomain")
-				case vc02ref.MRefused:
-					classes = append(classes, prefix+"-refused")
-				}
-
-				if upNonEmpty {
-					classes = append(classes, "blocked-over-nonempty-upstream")
-				}
-			}
-
-			replaced := false
-			switch got.Kind {
-			case vc02ref.OBlocked, vc02ref.OSafeBlock:
-				blockedShape("blocked")
-				replaced = upNonEmpty
-			case vc02ref.ONone:
-				classes = append(classes, "resp-verdict-"+gotResp.Kind.String())
-				if gotResp.Kind == vc02ref.OBlocked {
-					blockedShape("blocked")
-					classes = append(classes, "blocked-by-response")
-					replaced = true
-				}
-			case vc02ref.OAllowed:
-				for _, ro := range eff.EvalResponse(up.sent[0]) {
-					if ro.Kind == vc02ref.OBlocked {
-						classes = append(classes, "req-allowed-resp-would-block")
-
-						break
-					}
-				}
-			case vc02ref.ORwCNAME:
-				classes = append(classes, "rewrite-cname")
-			case vc02ref.ORwIP:
-				classes = append(classes, "rewrite-ip")
-				replaced = upNonEmpty
-			case vc02ref.ORwRcode:
-				classes = append(classes, "rewrite-rcode")
-				replaced = upNonEmpty
-			}
-
-			if got.Kind != vc02ref.ONone && got.List != vc02ref.IDCustom && got.List != vc02ref.IDSvc && !strings.HasPrefix(got.List, "l") {
-				classes = append(classes, "safety-verdict")
-			}
-
-			switch requester {
-			case reqAnon:
-				classes = append(classes, "anonymous-group-config")
-			case reqProfile:
-				classes = append(classes, "profile-config")
-			case reqProfileOff:
-				classes = append(classes, "filtering-off-profile")
-			case reqDeviceOff:
-				classes = append(classes, "filtering-off-device")
-			}
-
-			// Would the verdict differ if every slot of the world were in effect?
-			if eff != nil {
-				all := w.All()
-				if vc02ref.OutcomesString(all.EvalRequest(host, qt)) != vc02ref.OutcomesString(reqOuts) {
-					classes = append(classes, "flag-off-hides-slot")
-				}
-			}
-
-			if len(ec.errs) > nErrs {
+		record := func(e *vc02Exch, extra ...string) {
+			nErr := ec.count()
+			classes, nt, desc, verdict := vc02Judge(t, env, e)
+			classes = append(classes, extra...)
+			if nErr > 0 {
 				classes = append(classes, "errors-collected")
 			}
 
-			if qi > 0 {
-				classes = append(classes, "later-question-on-same-stack")
-			}
-
-			slots := eff.Slots(host, qt)
-			nt := ""
-			if slots >= 2 || replaced {
-				nt = fmt.Sprintf("%v", desc)
-			}
-
 			st.Case(nt, classes...)
-			if st.WantSample() && slots >= 2 && got.Kind != vc02ref.ONone {
-				desc["written"] = vc02ref.MsgString(written)
-				desc["verdict"] = got.String()
+			if st.WantSample() && nt != "" && !strings.HasPrefix(verdict, "none") {
+				desc["written"] = vc02ref.MsgString(e.rw.Msg())
+				desc["verdict"] = verdict
+				desc["how"] = extra
 				st.Sample(desc)
+			}
+		}
+
+		isBlocked := func(e *vc02Exch) bool {
+			for _, o := range e.who.eff.EvalRequest(e.host, e.qt) {
+				if o.Kind != vc02ref.OBlocked && o.Kind != vc02ref.OSafeBlock {
+					return false
+				}
+			}
+
+			return true
+		}
+
+		// Sequential part.
+		var prev *vc02Exch
+		nQ := rapid.IntRange(1, 4).Draw(t, "nQuestions")
+		for qi := 0; qi < nQ; qi++ {
+			e, change := vc02DrawExch(t, env, focus, prev)
+			vc02Serve(env, e, 4242+qi)
+
+			var extra []string
+			if qi > 0 {
+				extra = append(extra, "later-question-on-same-stack")
+			}
+
+			switch change {
+			case "requester":
+				extra = append(extra, "same-question-other-requester")
+				if isBlocked(e) && isBlocked(prev) && (e.who.mode.String() != prev.who.mode.String() || e.who.ttl != prev.who.ttl) {
+					extra = append(extra, "same-question-other-requester-blocked")
+				}
+			case "qtype":
+				extra = append(extra, "near-miss-qtype")
+			case "host":
+				extra = append(extra, "near-miss-host")
+			case "nothing":
+				extra = append(extra, "identical-repeat")
+			}
+
+			record(e, extra...)
+			prev = e
+		}
+
+		// Concurrent part: several requests are inside the upstream at the same
+		// time, so every piece of per-request state of the middlewares is live
+		// at once.  Mostly the requesters differ and the question is the same.
+		if rapid.IntRange(0, 2).Draw(t, "concurrent") != 0 {
+			k := rapid.IntRange(2, 4).Draw(t, "inFlight")
+			gate := vc02NewGate(k)
+			var es []*vc02Exch
+			var p *vc02Exch
+			for i := 0; i < k; i++ {
+				e, _ := vc02DrawExch(t, env, focus, p)
+				e.gate = gate
+				es = append(es, e)
+				p = e
+			}
+
+			var wg sync.WaitGroup
+			for i, e := range es {
+				wg.Add(1)
+				go func() {
+					defer wg.Done()
+					vc02Serve(env, e, 5000+i)
+				}()
+			}
+
+			wg.Wait()
+			if gate.late {
+				t.Logf("VERIF-INCONCLUSIVE: concurrent round did not assemble within 10s")
+				fmt.Println("VERIF-INCONCLUSIVE: C02 concurrent round did not assemble within 10s")
+				t.FailNow()
+			}
+
+			sameBlocked := false
+			for i, e := range es {
+				for _, o := range es[:i] {
+					if o.host == e.host && o.qt == e.qt && o.who != e.who && isBlocked(o) && isBlocked(e) &&
+						(o.who.mode.String() != e.who.mode.String() || o.who.ttl != e.who.ttl) {
+						sameBlocked = true
+					}
+				}
+			}
+
+			for _, e := range es {
+				extra := []string{"concurrent-request"}
+				if sameBlocked {
+					extra = append(extra, "concurrent-same-question-blocked")
+				}
+
+				record(e, extra...)
 			}
 		}
 	})
